@@ -109,8 +109,8 @@ Print Assumptions raise_or_skip_as_configured.
 (* ... and conversely, for ALL scripts: every documented exception that comes out of udp() is the
    deadline, or is justified by the configuration and the datagram at the position reported *)
 Theorem errors_only_as_configured :
-  forall (parse : list Z -> pabs) q qwire where_ timeout af o evs now i e,
-  udp parse q qwire where_ timeout af o [] evs now = (i, Lib e) ->
+  forall (parse : list Z -> pabs) q qwire where_ timeout af o sevs evs now i e,
+  udp parse q qwire where_ timeout af o sevs evs now = (i, Lib e) ->
   (e = neTimeout /\ timeout <> None) \/
   exists pre wire from rest, evs = pre ++ UData wire from :: rest /\ i = (length pre + 1)%nat /\
     ( raised_as_configured parse af (Some where_) o (Some q) e wire from
